@@ -170,3 +170,29 @@ def c15(run):
                              "touching the shell, closed and self-touching lines, multilinestrings sharing end points 2..5 ways, "
                              "collections with empty members; non-trivial = non-empty"}
     family_random(run, "boundary", "Trace_Boundary", tier_n(run, 10000, 400000))
+
+FAMILY_MODULE["rtree"] = "Trace_RTree"
+
+
+def _canary_rtree(e):
+    # repeat a callback: the spec has no step for a record visited twice
+    for k, x in enumerate(e["evs"]):
+        if x["e"] == "Cb" and x["ret"] == "cont":
+            e["evs"].insert(k + 1, dict(x))
+            return e
+    return None
+
+
+CANARY["rtree"] = _canary_rtree
+
+
+@prop("C11")
+def c11(run):
+    run.assumptions += ["integer boxes with ordinates < 2^14 so that squared distances fit TLC integers",
+                        "the node structure is read through the verif hook rtree.VerifDump"]
+    run.extra_cov = {"rule": "one case = one history: bulk load (sizes 0..40 round-robin plus 41..5000) of 7 layouts (general, points, "
+                             "segments, duplicates/identical centres, collinear, clustered, heavy overlap), then range and priority "
+                             "searches with a scripted callback answering Stop / wrapped Stop / error at every visit position for small "
+                             "trees, and Nearest calls; non-trivial = more than 4 items"}
+    run.model_check("MC_RTree", cfg=tier_n(run, "MC_RTree.cfg", "MC_RTree_thorough.cfg"), timeout=3000, heap="24g")
+    family_random(run, "rtree", "Trace_RTree", tier_n(run, 400, 6000))
